@@ -29,6 +29,9 @@ LEVEL_TEXT = ('The probe loop is modelled over an arbitrary server state machine
 LEVEL_NOTE = ('Trusted: Lean kernel; fakenet (in-process scripted SSH server) and the harness; modular exponentiation uses a deterministic small exponent (SystemRandom stubbed). '
               'Replies that are not well-formed group messages (p <= 5, truncated) are part of C09, not C12. The three server styles are spec-side definitions written from OpenSSH dh.c / RFC 4419.')
 
+OPENSSH_BANNERS = ['SSH-2.0-OpenSSH_8.9p1', 'SSH-2.0-OpenSSH_for_Windows_8.1', 'SSH-2.0-OpenSSH_7.4-hpn14v14', 'SSH-1.99-OpenSSH_3.9p1', 'SSH-2.0-OpenSSH_9.6p1 Ubuntu-3ubuntu13',
+                   'SSH-2.0-OpenSSH_10.0']
+OTHER_BANNERS = ['SSH-2.0-dropbear_2022.83', 'SSH-2.0-libssh_0.10.6', 'SSH-2.0-openssh_8.0', 'SSH-2.0-Open_SSH_8.0', 'SSH-2.0-Cisco-1.25', 'SSH-2.0-dropbear OpenSSH-compatible']
 UNIVERSE = [512, 768, 1024, 1536, 2048, 3072, 4096, 6144, 8192]
 SHA1 = 'diffie-hellman-group-exchange-sha1'
 SHA256 = 'diffie-hellman-group-exchange-sha256'
@@ -157,8 +160,11 @@ def run(ctx):
                       (lambda it_: (lambda mn, pf, mx: next(it_, None)))(it), ra))
     lines, expect = [], []
     nonmono = []
-    for desc, gexfn, ra in cases:
-        banner = b'SSH-2.0-OpenSSH_8.9p1' if desc['openssh'] else b'SSH-2.0-dropbear_2022.83'
+    for case_no, (desc, gexfn, ra) in enumerate(cases):
+        # OpenSSH in all the spellings servers really send (portable, Windows build, vendor-prefixed, bare), and other products incl. look-alikes in another case
+        if 'banner' not in desc:
+            desc['banner'] = r.choice(OPENSSH_BANNERS if desc['openssh'] else OTHER_BANNERS) if case_no % 3 else (OPENSSH_BANNERS[0] if desc['openssh'] else OTHER_BANNERS[0])
+        banner = desc['banner'].encode()
         res = run_real(desc['algs'], banner, gexfn, refuse_after=ra)
         nontriv = any(isinstance(a, int) and a > 0 for a in res['answers'])
         cov.add(json.dumps(desc, sort_keys=True), nontriv, tags=[desc['kind'], 'openssh' if desc['openssh'] else 'other', 'reported' if res['sizes'] else 'none'],
@@ -268,12 +274,14 @@ def replay(obj):
     else:
         it = iter(d['script'])
         gexfn = lambda mn, pf, mx: next(it, None)  # noqa
-    res = run_real(d['algs'], b'SSH-2.0-OpenSSH_8.9p1' if d['openssh'] else b'SSH-2.0-dropbear_2022.83', gexfn, refuse_after=d.get('refuse_after'))
+    res = run_real(d['algs'], d['banner'].encode() if 'banner' in d else (b'SSH-2.0-OpenSSH_8.9p1' if d['openssh'] else b'SSH-2.0-dropbear_2022.83'), gexfn, refuse_after=d.get('refuse_after'))
     print(json.dumps({'requests': res['requests'], 'answers': res['answers'], 'reported': res['sizes']}))
     bad = 0
     for a in d['algs']:
         if a in (SHA1, SHA256) and len([x for x in d['algs'] if x in (SHA1, SHA256)]) == 1 and d.get('refuse_after') is None:
             want, _ = expected_report(res['requests'], res['answers'], d['openssh'])
+            if d.get('kind') == 'family':
+                want = full_sequence_expectation(STYLES[d['style']](d['M']), d['openssh'])[0]
             if res['sizes'].get(a) != want:
                 print('PROPERTY FAILS: reported %r, expected %r' % (res['sizes'].get(a), want))
                 bad = 1
